@@ -74,6 +74,7 @@ def run(ctx):
         bs += list(gen.all_bytes_upto(2))
     bs = [b for b in bs if len(b) < 200000]
     cases = ["de " + gen.hx(b) for b in bs]
+    deferred = []
     dis, m, py = pywheel.correspond(ctx, "py28", cases, name="py28-de", nontrivial=nontrivial)
     pywheel.record_broken(ctx, "py28-de", dis)
     rs = vlib.run_impl("classic", cases)
@@ -84,9 +85,12 @@ def run(ctx):
         same = (p == q) if (p.startswith("ok") or q.startswith("ok")) else (p.startswith("err ValueError") and q.startswith("err"))
         if not same:
             rep = {"case": c[:2000], "family": "py28", "runner": "pywheel", "impl": p, "rust": q}
+            what = "pure-Python sexp_from_stream and Rust node_from_stream disagree (accept set / tree / consumed bytes)"
             if _known_class(c, p, q, fx):
                 rep["class"] = "F4-seven-byte-size-field"
-            ctx.violation("pure-Python sexp_from_stream and Rust node_from_stream disagree (accept set / tree / consumed bytes)", rep)
+                deferred.append((what, rep))      # reported after everything else, so that other failures get the replay files
+            else:
+                ctx.violation(what, rep)
         # the repaired-decoder model must agree with Rust everywhere (C28_decoder_fixed, re-checked on the implementation)
         fsame = (fx == q) if (fx.startswith("ok") or q.startswith("ok")) else (fx.startswith("err") and q.startswith("err"))
         if not fsame:
@@ -171,6 +175,8 @@ def run(ctx):
             ctx.violation("wheel run of the module on the prepended environment differs from Rust run_program",
                           {"case": c[:2000], "family": "py28", "runner": "pywheel", "impl": p, "rust": q})
     lap('curried runs')
+    for what, rep in deferred[:20]:
+        ctx.violation(what, rep)
 
 
 def _small(r, size):
